@@ -36,7 +36,12 @@ Bad(DM) ==
       <<"C17.composite_right_multiply", Obs.vPAP = MMul(inst.y, PAP)>>,
       <<"C17.shape",  Obs.shape = <<D, D>> >>,
       <<"C17.dtype",  Obs.cplx = inst.cplx>>,
-      <<"C17.idempotent", inst.idem = 0 \/ Obs.PPv = MMul(DM, inst.x)>> } : ~c[2]}
+      <<"C17.idempotent", inst.idem = 0 \/ Obs.PPv = MMul(DM, inst.x)>>,
+      \* the projector composed with ITSELF and with a composite, as operators (whether or not it is idempotent)
+      <<"C17.self_composition",    Obs.PPop = MMul(DM, MMul(DM, inst.x))>>,
+      <<"C17.self_composition_right", Obs.vPPop = MMul(MMul(inst.y, DM), DM)>>,
+      <<"C17.self_composition_adjoint", Obs.PPHop = MMul(MAdj(MMul(DM, DM)), inst.x)>>,
+      <<"C17.composite_self_composition", Obs.PPAop = MMul(DM, MMul(DM, MMul(A, inst.x)))>> } : ~c[2]}
 
 TPInit == PInit /\ l = 1 /\ fails = {}
 \* step 1 observes the freshly built object (op = "none"); later steps apply an operation
